@@ -8,6 +8,7 @@ bind:  every program is pretty-printed (fully parenthesised and minimally parent
        evaluated by the implementation with both parsers, as snippet, imported file, external-code variable
        and top-level-argument function body; value (as JSON) or failure must equal the model's outcome."""
 import json
+import os
 import random
 
 import common
@@ -80,6 +81,8 @@ def run(chk):
             rng.shuffle(rep)
             rep = rep[:5000]
         cases.extend(rep)
+    if thorough or os.environ.get("VERIF_EXP"):
+        _exp(chk)          # experimental syntax against its documented desugaring (experimental build of the harness)
     oom = [c for c in cases if c["out"]["k"] == "oom"]
     cases = [c for c in cases if c["out"]["k"] != "oom"]
     chk.extra["programs_enumerated"] = len(cases) + len(oom)
@@ -114,6 +117,11 @@ def run(chk):
     chk.assumptions += ["numbers are integers below 1e9 with exact division; programs exhausting the model's fuel or leaving "
                         "the integer domain are outside the decided domain and not judged",
                         "errors are compared as failure-vs-value (plus the text of `error` expressions)"]
+
+
+def _exp(chk):
+    from props import c01exp
+    c01exp.run(chk)
 
 
 def finish(chk):
